@@ -28,6 +28,12 @@ def eval_cond(n, env):
         return not eval_cond(n["c"][0], env)
     if k == "CXXBoolLiteralExpr":
         return bool(n["value"])
+    if k == "DeclRefExpr" and "__scan" in env:
+        # a condition given a name: const bool with_damping = (...);
+        sc = env["__scan"]
+        d_ = sc.locals.get(n.get("decl"))
+        if d_ is not None and "init" in d_ and sc.assigned.get(n["decl"], 0) == 0:
+            return eval_cond(d_["init"], env)
     raise AnalysisBroken("gate condition not evaluable: %s" % A.show(n))
 
 
@@ -44,8 +50,8 @@ def eval_val(n, env):
 
 
 class Block:
-    def __init__(self, dt, loop):
-        self.dt, self.loop = dt, loop
+    def __init__(self, dt, loop, scan=None):
+        self.dt, self.loop, self.scan = dt, loop, scan
         self.cells = {}     # k -> dict(offset=sympy, parts=[(gates, op, value, line)])
         self.line = loop.node["line"] if loop is not None else 0
 
@@ -55,7 +61,7 @@ class Block:
         for k, c in self.cells.items():
             w = None
             for gates, op, val, line in c["parts"]:
-                if not all(eval_cond(g, {"_fptype": t, "fptype": t}) == pol for g, pol in gates):
+                if not all(eval_cond(g, {"_fptype": t, "fptype": t, "__scan": self.scan}) == pol for g, pol in gates):
                     continue
                 if op == "=":
                     w = val
@@ -83,15 +89,60 @@ class Stencils:
         self.blocks = {}    # dt -> [Block] in program order
         self.border = {}    # dt -> list of (row expr, k, index value, weight value, line)
         self.gate_nodes = []
+        en = prog.enums.get("vfps::FokkerPlanckMap::DerivationType")
+        A.require(en is not None, "FokkerPlanckMap::DerivationType not found")
+        self.dt_values = sorted(e_["value"] for e_ in en["constants"])
         for a in s.accesses:
             if a.kind != "store" or a.base != "_hinfo" or a.idx is None:
                 continue
-            sw = [g for g, pol in a.guards if isinstance(g, dict) and g.get("k") == "SwitchCase"]
-            A.require(len(sw) == 1, "FokkerPlanckMap ctor: _hinfo store outside the derivation-type switch")
-            A.require(A.declref(sw[0]["cond"]) is not None and A.declref(sw[0]["cond"])["name"] == "dt",
-                      "FokkerPlanckMap ctor: switch is not over the derivation type parameter")
-            gates = [(g, pol) for g, pol in a.guards if not (isinstance(g, dict) and g.get("k") in ("SwitchCase",))]
-            for dt in sw[0]["labels"]:
+            # which derivation types reach this store: every guard that tests the constructor parameter `dt`, as a case label or
+            # as a plain condition (if / else-if chain), evaluated for each enumerator
+            dtdecl = [p["decl"] for p in fn["params"] if p["name"] == "dt"][0]
+
+            def on_dt(g):
+                if isinstance(g, dict) and g.get("k") == "SwitchCase":
+                    dr = A.declref(g["cond"])
+                    return dr is not None and dr.get("decl") == dtdecl
+                return isinstance(g, dict) and g.get("k") != "Catch" and any(y.get("k") == "DeclRefExpr" and y.get("decl") == dtdecl for y in A.walk(g))
+            dtg = [(g, pol) for g, pol in a.guards if on_dt(g)]
+            A.require(dtg, "FokkerPlanckMap ctor: _hinfo store outside the derivation-type switch")
+            gates = [(g, pol) for g, pol in a.guards if not on_dt(g)]
+            reach = []
+            for dtv in self.dt_values:
+                ok_ = True
+                for g, pol in dtg:
+                    if g.get("k") == "SwitchCase":
+                        hit = dtv in g["labels"] or ("default" in g["labels"] and False)
+                        ok_ = ok_ and (hit == pol)
+                    else:
+                        ok_ = ok_ and (eval_cond(g, {"dt": dtv, "__scan": s}) == pol)
+                if ok_:
+                    reach.append(dtv)
+            for dt in reach:
+                idx = sp.expand(a.idx[0])
+                loops_ = list(a.loops)
+                # a loop over the cells of one row (index coefficient 1, bounds [0,_ip)) is unrolled: _ip == number of cells == dt
+                cellL = [L_ for L_ in loops_ if L_.sym is not None and sp.expand(idx.coeff(L_.sym, 1) - 1) == 0 and L_.lo == 0 and L_.hi in (self.ip, sp.Integer(dt))]
+                if cellL:
+                    L_ = cellL[0]
+                    rest_loops = [x_ for x_ in loops_ if x_ is not L_]
+                    for kk in range(dt):
+                        a2 = I.Access(a.kind, a.base, (sp.expand(idx.subs(L_.sym, kk)),), a.path, a.node, a.line, a.guards, rest_loops, a.op,
+                                      a.value.subs(L_.sym, kk) if a.value is not None else None, a.value_node, a.base_node)
+                        self._take(a2, dt, gates)
+                    continue
+                self._take(a, dt, gates)
+        A.require(self.blocks, "FokkerPlanckMap ctor: no stencil block found")
+        for dt, bl in self.blocks.items():
+            for b in bl:
+                for k, c in b.cells.items():
+                    A.require(c["offset"] is not None and c["offset"].is_Integer,
+                              "FokkerPlanckMap ctor: source offset of cell %d is not j + const" % k)
+
+    def _take(self, a, dt, gates):
+        s = self.scan
+        if True:
+            if True:
                 idx = sp.expand(a.idx[0])
                 if a.loops:
                     L = a.loops[-1]
@@ -101,7 +152,7 @@ class Stencils:
                     bl = self.blocks.setdefault(dt, [])
                     b = next((x for x in bl if x.loop.node is L.node), None)
                     if b is None:
-                        b = Block(dt, L)
+                        b = Block(dt, L, s)
                         bl.append(b)
                     c = b.cells.setdefault(int(k), {"offset": None, "parts": [], "index_line": None})
                     A.require(a.value is not None, "FokkerPlanckMap ctor: untranslatable stencil entry at line %d" % a.line)
@@ -120,12 +171,6 @@ class Stencils:
                 else:
                     A.require(not gates, "FokkerPlanckMap ctor: conditional border entry")
                     self.border.setdefault(dt, []).append((idx, a.path, a.value, a.line))
-        A.require(self.blocks, "FokkerPlanckMap ctor: no stencil block found")
-        for dt, bl in self.blocks.items():
-            for b in bl:
-                for k, c in b.cells.items():
-                    A.require(c["offset"] is not None and c["offset"].is_Integer,
-                              "FokkerPlanckMap ctor: source offset of cell %d is not j + const" % k)
 
     def block_range(self, b):
         return b.loop.lo, b.loop.hi
